@@ -2,19 +2,22 @@
 // LevelDB under a scratch directory) driven block by block through OnExecute / OnCommit.
 //
 // Four replicas execute the same chain:
-//   B  the one on the line protocol: it is stopped and started again at random block boundaries;
-//   A  runs continuously;                          (C05: lifetimes do not matter)
-//   C  verifies signatures with ONE worker;        (C05: worker count does not matter)
-//   D  executes every block WITHOUT the transactions B reported invalid
-//                                                  (C09: an invalid tx leaves no trace)
+//
+//	B  the one on the line protocol: it is stopped and started again at random block boundaries;
+//	A  runs continuously;                          (C05: lifetimes do not matter)
+//	C  verifies signatures with ONE worker;        (C05: worker count does not matter)
+//	D  executes every block WITHOUT the transactions B reported invalid
+//	                                               (C09: an invalid tx leaves no trace)
+//
 // The verdicts, nonces and the receipts hash of B are compared with the Lean model (Model/App.lean),
 // which gets the receipt bytes of applied transactions as oracle input; the application hash is
 // opaque to the model and compared between the replicas here.
 //
 // ops:  new
-//       tx kind=call|create|kv|garbage|empty|badsig from= nonce= to= value= gas= price= data= key= val= rlpok=
-//       exec       (executes the pending transactions as the next block)
-//       restart
+//
+//	tx kind=call|create|kv|garbage|empty|badsig from= nonce= to= value= gas= price= data= key= val= rlpok=
+//	exec       (executes the pending transactions as the next block)
+//	restart
 package main
 
 import (
@@ -88,6 +91,8 @@ type blockRes struct {
 	appHash  []byte
 	rHash    []byte
 	panicked string
+	unechoed int        // transactions reported without their bytes (see verdictCands)
+	cands    [][]string // every reading of the verdicts that fits the execute result
 }
 
 type world struct {
@@ -252,22 +257,96 @@ func (r *replica) run(h int64, txs [][]byte) (res blockRes) {
 		return
 	}
 	x := er.(gtypes.ExecuteResult)
-	vi, ii := 0, 0
-	for _, tx := range txs {
-		switch {
-		case vi < len(x.ValidTxs) && bytes.Equal(x.ValidTxs[vi], tx):
-			res.verdicts = append(res.verdicts, "V")
-			vi++
-		case ii < len(x.InvalidTxs) && bytes.Equal(x.InvalidTxs[ii].Bytes, tx):
-			res.verdicts = append(res.verdicts, "I")
-			ii++
-		default:
+	res.cands, res.unechoed = verdictCands(txs, x)
+	if len(res.cands) > 0 {
+		res.verdicts = res.cands[0]
+	} else {
+		for range txs {
 			res.verdicts = append(res.verdicts, "?")
 		}
 	}
 	c := cr.(gtypes.CommitResult)
 	res.appHash, res.rHash = c.AppHash, c.ReceiptsHash
 	return
+}
+
+// verdictCands reads the per-transaction verdicts off an execute result: both lists keep block
+// order, so the verdicts are the interleavings of the two lists that reproduce the block.
+// The verifier publishes a queue entry's status before it stores the entry's original bytes
+// (verifycpuparallel.go txQueue), so on some schedules the executor reports a transaction with no
+// bytes; such an entry matches any transaction (which list it is in is still the verdict; C05
+// speaks of hashes, receipts and query results, not of the bytes echoed in the execute result).
+// With two such entries in one block more than one interleaving can fit: all are returned and the
+// caller settles on the one the replicas have in common.
+func verdictCands(txs [][]byte, x gtypes.ExecuteResult) (cands [][]string, unechoed int) {
+	for _, v := range x.ValidTxs {
+		if len(v) == 0 {
+			unechoed++
+		}
+	}
+	for _, v := range x.InvalidTxs {
+		if len(v.Bytes) == 0 {
+			unechoed++
+		}
+	}
+	for _, tx := range txs { // empty transactions are echoed as empty bytes
+		if len(tx) == 0 {
+			unechoed--
+		}
+	}
+	if len(x.ValidTxs)+len(x.InvalidTxs) != len(txs) {
+		return nil, unechoed
+	}
+	var cur []string
+	var rec func(t, vi, ii int)
+	rec = func(t, vi, ii int) {
+		if t == len(txs) {
+			cands = append(cands, append([]string{}, cur...))
+			return
+		}
+		fits := func(b []byte) bool { return bytes.Equal(b, txs[t]) || len(b) == 0 }
+		if vi < len(x.ValidTxs) && fits(x.ValidTxs[vi]) {
+			cur = append(cur, "V")
+			rec(t+1, vi+1, ii)
+			cur = cur[:len(cur)-1]
+		}
+		if ii < len(x.InvalidTxs) && fits(x.InvalidTxs[ii].Bytes) {
+			cur = append(cur, "I")
+			rec(t+1, vi, ii+1)
+			cur = cur[:len(cur)-1]
+		}
+	}
+	rec(0, 0, 0)
+	return cands, unechoed
+}
+
+// settle picks, for replicas that executed the same block, the verdict reading they have in common.
+func settle(rs []*blockRes) {
+	amb := false
+	for _, r := range rs {
+		amb = amb || len(r.cands) > 1
+	}
+	if !amb {
+		return
+	}
+	for _, c := range rs[0].cands {
+		all := true
+		for _, r := range rs[1:] {
+			has := r.panicked != ""
+			for _, d := range r.cands {
+				has = has || strings.Join(d, "") == strings.Join(c, "")
+			}
+			all = all && has
+		}
+		if all {
+			for _, r := range rs {
+				if r.panicked == "" {
+					r.verdicts = c
+				}
+			}
+			return
+		}
+	}
 }
 
 func (r *replica) nonce(a common.Address) uint64 {
@@ -285,7 +364,7 @@ func main() {
 	w := newWorld()
 	defer w.closeAll()
 	var history []string
-	var pending []string       // tx op lines of the block under construction
+	var pending []string         // tx op lines of the block under construction
 	var lastInvalid map[int]bool // set by exec: indices B reported invalid (for the generator's oracle)
 	var lastRes []blockRes
 
@@ -350,8 +429,16 @@ func main() {
 				pending = nil
 				w.height++
 				lastRes = nil
-				rb := w.reps[0].run(w.height, txs)
-				lastRes = append(lastRes, rb)
+				rs := make([]blockRes, len(w.reps))
+				var same []*blockRes
+				for k, rep := range w.reps {
+					if rep.name != "D" {
+						rs[k] = rep.run(w.height, txs)
+						same = append(same, &rs[k])
+					}
+				}
+				settle(same)
+				rb := rs[0]
 				lastInvalid = map[int]bool{}
 				var kept [][]byte
 				for i, v := range rb.verdicts {
@@ -361,13 +448,12 @@ func main() {
 						lastInvalid[i] = true
 					}
 				}
-				for _, rep := range w.reps[1:] {
+				for k, rep := range w.reps {
 					if rep.name == "D" {
-						lastRes = append(lastRes, rep.run(w.height, kept))
-					} else {
-						lastRes = append(lastRes, rep.run(w.height, txs))
+						rs[k] = rep.run(w.height, kept)
 					}
 				}
+				lastRes = rs
 				if rb.panicked != "" {
 					return "PANIC"
 				}
@@ -416,7 +502,7 @@ func main() {
 	R := r.R
 	codes := map[string]string{
 		"store":   "600a600c600039600a6000f3" + "60003560005500", // deploys: SSTORE(0, calldata[0])
-		"logger":  "6005600c60003960056000f3" + "60006000a0", // deploys: LOG0(0,0) on every call
+		"logger":  "6005600c60003960056000f3" + "60006000a0",     // deploys: LOG0(0,0) on every call
 		"revert":  "60006000fd",
 		"invalid": "fe",
 		"empty":   "",
@@ -428,8 +514,8 @@ func main() {
 			continue
 		}
 		nonces := make([]uint64, nKeys) // what the generator believes (from B's answers)
-		created := []string{}            // c<i>:<nonce> of contracts created so far
-		applied := map[string]int{}      // "<from>/<nonce>" -> how often a signed tx with it was applied
+		created := []string{}           // c<i>:<nonce> of contracts created so far
+		applied := map[string]int{}     // "<from>/<nonce>" -> how often a signed tx with it was applied
 		fail := func(cls, detail, got, want string) {
 			r.Fail(vh.Failure{Class: cls, Detail: detail, Ops: append([]string{}, history[1:]...), Got: got, Want: want})
 		}
@@ -536,6 +622,11 @@ func main() {
 				break
 			}
 			rb := lastRes[0]
+			for _, o := range lastRes {
+				if o.unechoed > 0 {
+					r.Count("verdict-reported-without-bytes")
+				}
+			}
 			// ---- C05: replicas
 			for k, rep := range w.reps[1:] {
 				o := lastRes[k+1]
